@@ -29,7 +29,11 @@ RULE = ("bounded-exhaustive corpora of 1-3 jobs {a: v} over a 14-value alphabet 
         "nesting depth <= 4; ints beyond 2^53 next to the equal float; lists of lists / of mappings; empty "
         "mappings; keys '', non-ASCII) x 2-4 detect_schema queries (no subset / subsets given as Job objects, "
         "ids, unknown ids, duplicates; exclude_const on/off) x 1-3 diff_jobs argument lists (all, sub-multisets, "
-        "singletons, none), half of the corpora read back through a fresh Project handle; distinct = distinct "
+        "singletons, none), half of the corpora read back through a fresh Project handle; a third of the corpora "
+        "come with a SECOND project (same state points reordered / a sub-corpus / extra jobs / one value with its "
+        "type or value twisted / unrelated; all 18 x 18 ordered pairs of tiny corpora first): "
+        "ProjectSchema.difference both ways with and without ignore_values, and the schema gate of a dry-run "
+        "project.sync(other, check_schema=True) (SchemaSyncConflict or not); distinct = distinct "
         "(corpus, queries, diffs); non-trivial = at least one job")
 MODELLED = ["CPython hash/== of None, bool, int, float, str, tuple (re-stated as pyEq / slotEq; '==' implies equal "
             "hashes except for signac's _float wrapper)",
@@ -43,7 +47,8 @@ EXHAUSTIVE = {"quick": False, "thorough": False}
 
 TECHNIQUE = ("Lean 4 theorems about an executable model of _nested_dicts_to_dotted_keys, build_index with "
              "Python dict-slot semantics, _build_job_statepoint_index, _collect_by_type, diff_jobs and "
-             "_dotted_dict_to_nested_dicts + differential correspondence of the compiled model against "
+             "_dotted_dict_to_nested_dicts, ProjectSchema equality / difference and the schema gate of sync_projects "
+             "(sync.py:829-836) + differential correspondence of the compiled model against "
              "project.detect_schema / signac.diff_jobs on real projects + brute-force oracle over the state points")
 LEVEL_TEXT = ("Proved in Lean for all corpora (any number of jobs, any nesting depth, any value mix): the reported "
               "keys are exactly the dotted keys of the selected jobs, minus exactly the constant keys iff "
@@ -54,7 +59,14 @@ LEVEL_TEXT = ("Proved in Lean for all corpora (any number of jobs, any nesting d
               "in Lean from the two-job witness of F-6a); flatten/unflatten round-trips on dot-free mappings with "
               "distinct keys; each job's diff and its common part partition its flattened pairs, are disjoint "
               "under Python equality, the common part consists of pairs present in every job, and unflattening "
-              "the partition restores the state point.")
+              "the partition restores the state point. Schema gate of sync (model SchemaGate): detected schemas are "
+              "well-formed Python mappings (distinct keys, distinct types, value lists are sets under ==); on those "
+              "schema equality is reflexive and symmetric, the two one-sided differences are both empty iff the "
+              "schemas are equal (so the inner test of the gate is redundant: syncGate_simple), the gate is "
+              "symmetric in the two projects, never fires on a project compared with itself or when either side "
+              "has no keys; difference(ignore_values=True) is exactly the keys the other side lacks and a subset of "
+              "the full difference; the gate is NOT independent of the job order (syncGate_perm_false, the F-6a "
+              "slot clash), which is why the observed index order is passed to the model.")
 LEVEL_NOTE = ("Trusted: Lean kernel; axioms propext/Classical.choice/Quot.sound; the harness (generator, wire "
               "format, brute-force oracle). Modelled, not verified: CPython hashing/equality and set/dict slot "
               "behaviour, index iteration order (observed per call). The model has the current "
@@ -450,6 +462,12 @@ def make_diffs(rng, n, k):
     return ds
 
 
+# every ordered pair of these tiny corpora is a (destination, source) pair for the schema gate / difference
+GATE_CORPORA = [[], [{}], [{"a": 1}], [{"a": 2}], [{"a": 1.0}], [{"a": True}], [{"a": True}, {"a": 1}],
+                [{"a": 1}, {"a": 2}], [{"a": {}}], [{"a": {"b": 1}}], [{"a": {"b": 1}}, {"a": 5}], [{"a": {"b": 1.0}}],
+                [{"a": 1, "b": None}], [{"a": [1]}], [{"a": [1.0]}], [{"a": "1"}], [{"b": 1}], [{}, {"a": 1}]]
+
+
 def small_cases():
     for v in ALPHABET:
         yield [{"a": v}]
@@ -471,6 +489,10 @@ def generate(tier, rng):
         yield {"sps": sps, "fresh": rng.random() < 0.5,
                "queries": [{"sel": None, "excl": False}, {"sel": None, "excl": True}],
                "diffs": [list(range(n))]}
+    for a in GATE_CORPORA:
+        for b in GATE_CORPORA:
+            yield {"sps": json.loads(json.dumps(a)), "fresh": rng.random() < 0.5, "queries": [], "diffs": [],
+                   "gate": {"sps": json.loads(json.dumps(b))}}
     triples = list(itertools.combinations(ALPHABET, 3))
     rng.shuffle(triples)
     for t in triples[: (120 if tier == "quick" else len(triples))]:
@@ -483,6 +505,55 @@ def generate(tier, rng):
         yield random_case(rng)
 
 
+def _twist(rng, v):
+    """a near miss of a value: same text family, other type / other value"""
+    if isinstance(v, dict):
+        if not v:
+            return {"a": 1}
+        k = rng.choice(sorted(v))
+        return dict(v, **{k: _twist(rng, v[k])})
+    if isinstance(v, bool):
+        return int(v)
+    if isinstance(v, int):
+        return float(v) if abs(v) < 2 ** 53 and rng.random() < 0.7 else v + 1
+    if isinstance(v, float):
+        return int(v) if v.is_integer() and rng.random() < 0.7 else v * 2 + 1
+    if isinstance(v, str):
+        return v + "x"
+    if isinstance(v, list):
+        return v + [0] if rng.random() < 0.5 else [_twist(rng, x) for x in v[:1]] + v[1:]
+    return 0
+
+
+def make_gate(rng, sps):
+    """state points of a SECOND project, related to the first: the two detected schemas are compared
+    (ProjectSchema.difference both ways, with and without ignore_values) and the schema gate of a dry-run
+    project sync is observed"""
+    base = json.loads(json.dumps(sps))
+    rng.shuffle(base)
+    r = rng.random()
+    if r < 0.2:
+        out = base                                   # the same state points in another order
+    elif r < 0.4:
+        out = base[: rng.randint(0, len(base))]      # a sub-corpus (possibly empty)
+    elif r < 0.55:
+        out = base + make_corpus(rng, rng.randint(1, 2))
+    elif r < 0.85 and base:
+        i = rng.randrange(len(base))                 # one value changes its type / value
+        out = base[:i] + [_twist(rng, base[i])] + base[i + 1:]
+        if rng.random() < 0.5:
+            out = out[: max(1, rng.randint(1, len(out)))]
+    else:
+        out = make_corpus(rng, rng.randint(0, 4))
+    seen, res = set(), []
+    for sp in out:
+        t = canon_text(sp)
+        if isinstance(sp, dict) and t not in seen and not has_unhashable(sp):
+            seen.add(t)
+            res.append(sp)
+    return {"sps": res}
+
+
 def random_case(rng):
     n = rng.choice([0, 1, 2, 2, 3, 3, 4, 4, 5, 6, 7, 8])
     sps = make_corpus(rng, n)
@@ -490,6 +561,8 @@ def random_case(rng):
     case = {"sps": sps, "fresh": rng.random() < 0.5,
             "queries": make_queries(rng, n, rng.choice([2, 3, 4])),
             "diffs": make_diffs(rng, n, rng.choice([1, 2, 3]))}
+    if rng.random() < 0.35:
+        case["gate"] = make_gate(rng, sps)
     if n >= 2 and rng.random() < 0.25:
         # jobs that existed and are gone when the questions are asked (their state points are still in the session /
         # persistent cache; the selection may still name them): they are no longer jobs of the project
@@ -546,6 +619,16 @@ def shrink(case):
                 yield dict(case, sps=case["sps"][:i] + [s] + case["sps"][i + 1:])
     if case.get("fresh"):
         yield dict(case, fresh=False)
+    if case.get("gate") is not None:
+        yield {k: v for k, v in case.items() if k != "gate"}
+        g = case["gate"]["sps"]
+        for i in range(len(g)):
+            yield dict(case, gate={"sps": g[:i] + g[i + 1:]})
+        gtexts = {canon_text(sp) for sp in g}
+        for i, sp in enumerate(g):
+            for s in gen.shrink_value(sp):
+                if isinstance(s, dict) and canon_text(s) not in gtexts:
+                    yield dict(case, gate={"sps": g[:i] + [s] + g[i + 1:]})
 
 
 # ----------------------------------------------------------------------------------------------
@@ -661,6 +744,9 @@ def run_case(case, ctx):
             else:
                 msgs.extend(check_diff(res, dids, dsps, where))
             tags.append("diffed=%d" % min(len(idxs), 8))
+
+        if case.get("gate") is not None:
+            run_gate(case, ctx, project, [by_id[i] for i in listing], listing, by_id, model, impl, msgs, tags)
     finally:
         ctx.cleanup(d)
 
@@ -687,9 +773,107 @@ def run_case(case, ctx):
         tags.append("removed-jobs-in-cache" + ("+persistent" if case.get("ucache") else ""))
     key = None
     if sps:
-        key = json.dumps([sorted(canon_text(sp) for sp in sps), case["queries"], case["diffs"]], sort_keys=True)
+        key = json.dumps([sorted(canon_text(sp) for sp in sps), case["queries"], case["diffs"],
+                          sorted(canon_text(sp) for sp in (case.get("gate") or {"sps": []})["sps"])
+                          if case.get("gate") is not None else None], sort_keys=True)
     return {"model": model, "impl": impl, "oracle": [m for m, _ in msgs],
             "classes": [c for _, c in msgs], "tags": tags, "key": key}
+
+
+def _observed_schema(project, ids, by_id):
+    """(ProjectSchema, job order the index was built in, exception)"""
+    del _RECORDED[:]
+    try:
+        sch = project.detect_schema()
+    except Exception as e:  # noqa: BLE001
+        return None, list(ids), e
+    order = _RECORDED[-1] if _RECORDED else None
+    if order is None or sorted(order) != sorted(ids):
+        order = list(ids)
+    return sch, order, None
+
+
+def expected_difference(sps_a, sps_b, ignore_values):
+    """keys of a's schema that b's schema lacks, plus (unless ignore_values) keys whose typed value sets
+    differ; None when a True/1 slot clash (F-6a) makes the reported value sets order dependent"""
+    ea, ca = expected_schema(sps_a, False)
+    eb, cb = expected_schema(sps_b, False)
+    if any(ca.values()) or any(cb.values()):
+        return None, None
+    keys = {k for k in ea if k not in eb}
+    if not ignore_values:
+        keys |= {k for k in ea if k in eb and ea[k] != eb[k]}
+    return keys, bool(ea) and bool(eb) and ea != eb
+
+
+def run_gate(case, ctx, project, sps_a, ids_a, by_a, model, impl, msgs, tags):
+    """second project; ProjectSchema.difference and the schema gate of sync_projects (dry run)"""
+    import contextlib
+    import io
+
+    import signac
+    from signac.errors import SchemaSyncConflict
+
+    d2 = ctx.fresh_dir("c18g")
+    try:
+        other = signac.init_project(d2)
+        sps_b = case["gate"]["sps"]
+        jobs_b = [other.open_job(sp).init() for sp in sps_b]
+        by_b = {j.id: sp for j, sp in zip(jobs_b, sps_b)}
+        ids_b = [n for n in os.listdir(other.workspace) if n in by_b]
+        A, order_a, ea = _observed_schema(project, ids_a, by_a)
+        B, order_b, eb = _observed_schema(other, ids_b, by_b)
+        la = "%d %s" % (len(order_a), job_line([(i, by_a[i]) for i in order_a]))
+        lb = "%d %s" % (len(order_b), job_line([(i, by_b[i]) for i in order_b]))
+        if ea is not None or eb is not None:
+            e = ea or eb
+            msgs.append(("detect_schema() raised %s: %s" % (exc_name(e), e), None))
+        else:
+            for ign, X, Y, lx, ly, sx, sy, name in ((False, A, B, la, lb, sps_a, [by_b[i] for i in ids_b], "A-B"),
+                                                    (False, B, A, lb, la, [by_b[i] for i in ids_b], sps_a, "B-A"),
+                                                    (True, A, B, la, lb, sps_a, [by_b[i] for i in ids_b], "A-B")):
+                where = "schema(%r).difference(schema(%r), ignore_values=%s)" % (sx, sy, ign)
+                try:
+                    got = X.difference(Y, ignore_values=ign)
+                    line = "|".join(sorted(hx(k) for k in got))
+                    exp, _ = expected_difference(sx, sy, ign)
+                    if exp is not None and set(got) != exp:
+                        msgs.append(("%s = %r, the state points give %r" % (where, sorted(got), sorted(exp)), None))
+                    if not isinstance(got, set):
+                        msgs.append(("%s is a %s, not a set" % (where, type(got).__name__), None))
+                except Exception as e:  # noqa: BLE001
+                    line = "EXC:" + exc_name(e)
+                    msgs.append(("%s raised %s: %s" % (where, exc_name(e), e), None))
+                model.append("sdiff %d %s %s" % (1 if ign else 0, lx, ly))
+                impl.append(line)
+                tags.append("sdiff-%s=%s" % ("keys" if ign else "full", "empty" if not line else "nonempty"))
+        # the gate of dst.sync(src, check_schema=True): dst = first project, src = second; a dry run
+        del _RECORDED[:]
+        buf = io.StringIO()
+        try:
+            with contextlib.redirect_stdout(buf):
+                project.sync(other, check_schema=True, dry_run=True)
+            line = "g0"
+        except SchemaSyncConflict:
+            line = "g1"
+        except Exception as e:  # noqa: BLE001
+            line = "EXC:" + exc_name(e)
+            msgs.append(("dry-run sync raised %s: %s" % (exc_name(e), e), None))
+        o_src, o_dst = list(ids_b), list(ids_a)
+        if len(_RECORDED) >= 2 and sorted(_RECORDED[0]) == sorted(ids_b) and sorted(_RECORDED[1]) == sorted(ids_a):
+            o_src, o_dst = _RECORDED[0], _RECORDED[1]
+        model.append("gate %d %s %d %s" % (len(o_src), job_line([(i, by_b[i]) for i in o_src]),
+                                           len(o_dst), job_line([(i, by_a[i]) for i in o_dst])))
+        impl.append(line)
+        _, gexp = expected_difference(sps_a, [by_b[i] for i in ids_b], False)
+        if gexp is not None and line in ("g0", "g1") and (line == "g1") != gexp:
+            msgs.append(("sync(check_schema=True) of %r into %r %s, but the two schemas %s" % (
+                [by_b[i] for i in ids_b], sps_a, "raised SchemaSyncConflict" if line == "g1" else "went ahead",
+                "are non-empty and differ" if gexp else "are equal or one is empty"), None))
+        tags.append("gate=" + line[:3])
+        tags.append("gate-jobs=%d" % min(len(ids_b), 8))
+    finally:
+        ctx.cleanup(d2)
 
 
 def _fmt_sel(sel):
